@@ -49,6 +49,8 @@ def load_record(tmp, sc, idx):
     genomes = [dict(g) for g in w['genomes']]
     for gi, a in sc.get('nulls', []):
         genomes[gi][a] = None
+    for gi, a, val in sc.get('rename', []):
+        genomes[gi][a] = val
     for gi, gj in sc.get('dup_ncbi', []):
         genomes[gj]['ncbi_id'] = genomes[gi]['ncbi_id']          # legal: ncbi_id is unique only together with ncbi_db
         genomes[gj]['ncbi_db'] = 'nuccore'
@@ -186,6 +188,14 @@ def scenarios(ctx):
     yield dict(world=w, id_attr='genbank_acc', sig_order=list(range(n)), nulls=[(1, 'genbank_acc')], why='a genome with a null identifier')
     yield dict(world=w, id_attr='ncbi_id', sig_order=list(range(n)), nulls=[(0, 'ncbi_id')], why='a genome with a null identifier')
     yield dict(world=w, id_attr='key', sig_order=list(range(n)), nulls=[(2, 'refseq_acc')], why='null in an attribute that is not used: must load')
+    # identifiers that differ only by trailing white space (blank, tab, newline) or by case: exact matching, nothing trimmed or folded
+    for attr in ('key', 'genbank_acc', 'refseq_acc'):
+        base = w['genomes'][0][attr]
+        for suffix in (' ', '\t', '\n', '  '):
+            yield dict(world=w, id_attr=attr, sig_order=[3, 1, 0, 2], rename=[(1, attr, base + suffix)], probe=True, why=f'two ids differing by trailing white space {suffix!r}')
+            yield dict(world=w, id_attr=attr, sig_order=[0, 2, 3], rename=[(1, attr, base + suffix)], why=f'id with trailing white space {suffix!r}, its signature missing: must fail')
+        yield dict(world=w, id_attr=attr, sig_order=[1, 0, 2, 3], rename=[(1, attr, base.swapcase())], probe=True, why='two ids differing by case')
+        yield dict(world=w, id_attr=attr, sig_order=[2, 0, 1, 3], rename=[(2, attr, ' ' + base)], probe=True, why='two ids differing by leading white space')
     # two genomes sharing an ncbi_id (different ncbi_db): refusing is fine, a database lacking one of them is not
     yield dict(world=w, id_attr='ncbi_id', sig_order=[0, 1, 2], dup_ncbi=[(0, 3)], why='two genomes share the id value')
     yield dict(world=w, id_attr='ncbi_id', sig_order=[2, 1, 3], dup_ncbi=[(3, 0)], extra=[dict(extra1[0], pos=0, id=9999)], why='two genomes share the id value (unrelated signature too)')
